@@ -10,7 +10,7 @@ TYPES = ['scalar', 'edwards', 'cedwards', 'ristretto', 'cristretto', 'montgomery
          'xpublic', 'xstatic']
 BYTES_STYLE = {'signingkey', 'verifyingkey'}     # serialize_bytes (length-prefixed in bincode)
 REQUIRED = ['rt:' + t for t in TYPES] + ['reject:noncanon-scalar', 'reject:invalid-edwards', 'reject:invalid-ristretto',
-                                         'reject:short', 'reject:long', 'reject:wrong-type', 'xstatic:unclamped', 'inplace']
+                                         'reject:short', 'reject:long', 'reject:wrong-type', 'xstatic:unclamped', 'inplace', 'shape:bytes']
 
 
 def native_accepts(ty, b):
@@ -133,6 +133,12 @@ def gen(ctx, n):
                     ctx.add('sd.de', ty, fmt, p.hex(), expect=['ok', shown(ty, canon).hex()], cls=['de:' + ty, c])
                 else:
                     ctx.add('sd.de', ty, fmt, p.hex(), expect=['err'], cls=['de:' + ty, c])
+            # a byte string (visit_bytes): which types read one is their own business, but whatever is accepted must be
+            # what the native decoder makes of those bytes
+            sh_ = shown(ty, canon).hex() if canon is not None else None
+            ctx.add('sd.de', ty, 'bytes', hx(b), cls=['de:' + ty, 'shape:bytes', c],
+                    expect=lambda t, sh_=sh_: None if (t == ['err'] or (sh_ is not None and t == ['ok', sh_])) else
+                    'a byte string was decoded to %s although the native decoder %s' % (t, 'gives ' + sh_ if sh_ else 'rejects it'))
             # length violations where the format conveys length
             good = canon if canon is not None else b
             if canon is None and ty not in BYTES_STYLE:
